@@ -38,10 +38,14 @@ def _setup():
     from pedal.core.report import MAIN_REPORT
 
 
-def judge_expr(ctx, variables, expr, aug=None, then=None):
+def judge_expr(ctx, variables, expr, aug=None, then=None, reassign=None, prior=False):
     """aug=(a, op, b): the operator applied in its augmented-assignment form (r = a; r op= b).
     then: a statement executed on the result afterwards (e.g. r.append('x')) -- the operands must keep their types."""
     pre = "\n".join("%s = %s" % kv for kv in variables.items()) + "\n"
+    if reassign:
+        # reassign=(name, earlier value): the operand held another value first (the later assignment is what counts)
+        pre = "%s = %s\n" % reassign + pre
+        expr_note = '%s = %s; ' % reassign
     stmt = "r = %s\n" % expr if aug is None else "r = %s\nr %s= %s\n" % aug
     if aug is not None:
         expr = "r = %s; r %s= %s" % aug
@@ -65,6 +69,13 @@ def judge_expr(ctx, variables, expr, aug=None, then=None):
         return
     cmds.clear_report()
     cmds.contextualize_report(code)
+    if prior:
+        # the report's analyser has already analysed a program of the same shape (same operator, types and lines)
+        ctx.step('tifa_analysis(similar program)')
+        try:
+            tifa_analysis(code + "# an earlier version\n")
+        except Exception:
+            pass
     ctx.step('tifa_analysis')
     try:
         t = tifa_analysis()
@@ -136,7 +147,8 @@ def make_table(variables):
         a = names[ctx.choose(len(names), 'left')]
         b = names[ctx.choose(len(names), 'right')]
         aug = op in AUG and bool(ctx.choose(2, 'augmented-form'))
-        judge_expr(ctx, variables, "%s %s %s" % (a, op, b), aug=(a, op, b) if aug else None)
+        prior = bool(ctx.choose(2, 'analysed-after-a-similar-program'))
+        judge_expr(ctx, variables, "%s %s %s" % (a, op, b), aug=(a, op, b) if aug else None, prior=prior)
     return body
 
 
@@ -246,6 +258,18 @@ def body_elements(ctx):
     judge_expr(ctx, ELEMS, "%s %s %s" % (a, op, b), aug=(a, op, b) if aug else None, then=then)
 
 
+def body_reassigned(ctx):
+    """the left operand was assigned another value (any of the element alphabet) before the one it holds now"""
+    names = list(ELEMS)
+    op = ('+', '*', '==')[ctx.choose(3, 'op')]      # (ordering of containers depends on the element values: out of scope)
+    a = names[ctx.choose(len(names), 'left')]
+    b = names[ctx.choose(len(names), 'right')]
+    first = names[ctx.choose(len(names), 'earlier-value-of-left')]
+    side = ctx.choose(2, 'which-operand-was-reassigned')
+    target = a if side == 0 else b
+    judge_expr(ctx, ELEMS, "%s %s %s" % (a, op, b), reassign=(target, ELEMS[first]))
+
+
 def bounds(tier):
     return {'operators': len(OPS), 'core_variables': len(CORE) * 2, 'extra_variables': len(EXTRA) if tier == 'thorough' else 0,
             'tree_depth': 2, 'value_depth': 2 if tier == 'quick' else 3}
@@ -261,6 +285,8 @@ def phases(tier):
                 describe='all depth-2 trees: arithmetic inner operator, any outer operator, 5 core variables'),
           Phase('container-elements', body_elements, setup=_setup, chunk=100,
                 describe='+ and * over containers with different element types, empty containers, zero/negative counts'),
+          Phase('reassigned-operands', body_reassigned, setup=_setup, chunk=100,
+                describe='operator on variables one of which held a value of another (element) type before'),
           Phase('values', make_values(2 if tier == 'quick' else 3), setup=_setup, chunk=300, describe='all nested JSON-like values up to the depth bound')]
     if tier == 'thorough':
         ph += [Phase('table-extended', make_table(allv), setup=_setup, chunk=100, describe='table incl. bool, set, dict (information beyond the core types)'),
